@@ -21,9 +21,9 @@ test_name=$(basename $demo .rs)
 mkdir -p $W/$crate/tests && cp $D/demo/$demo $W/$crate/tests/
 echo "## demo WITH change" >> $log
 cargo test --offline -p $crate "$@" --test $test_name >> $log 2>&1; with_rc=$?
-git stash -q
+git diff > $D/worktree.diff; git apply -R $D/worktree.diff
 echo "## demo WITHOUT change" >> $log
 cargo test --offline -p $crate "$@" --test $test_name >> $log 2>&1; without_rc=$?
-git stash pop -q
+git apply $D/worktree.diff
 rm -f $W/$crate/tests/$demo; rmdir $W/$crate/tests 2>/dev/null
 echo "VERDICT $name existing_tests_rc=$t_rc failed=$fails demo_with_change_rc=$with_rc demo_without_change_rc=$without_rc" | tee -a $log
